@@ -148,7 +148,8 @@ mutant('C03', 'ghost filter index slip', NL, 'newposv[i, 2] < supermax[2]', 'new
 mutant('C03', 'cutoff test non-strict', NL, 'if dmag2[w] < cutoff2:', 'if dmag2[w] <= cutoff2:', 'CONFIGURATIONS')
 mutant('C03', 'bins smaller than cutoff', NL, 'binsize = cutoff\n', 'binsize = 0.9 * cutoff\n', 'GEOMETRY')
 mutant('C03', 'padding below cutoff', NL, 'supermin[j] -= 1.01 * cutoff', 'supermin[j] -= 0.5 * cutoff', 'GEOMETRY')
-mutant('C03', 'stencil skips upper face test', NL, 'z + dz < 0 or z + dz == numzbins', 'z + dz < 0', 'STENCIL')
+# ('stencil skips upper face test' was registered here until round 10: the half stencil never looks upwards along z and the padded superbox leaves the outermost bins empty,
+#  so dropping that test changes nothing -- the bin-block evaluation of STENCIL rightly stays silent on it)
 mutant('C03', 'stencil stops one early', NL, 'for dx in range(-1, 2):', 'for dx in range(-1, 1):', 'STENCIL')
 mutant('C03', 'growth test only on first row', NL, 'if neighbors[uindex, 0] > maxneighbors or neighbors[vindex, 0] > maxneighbors:', 'if neighbors[uindex, 0] > maxneighbors:', 'INSERTION')
 mutant('C03', 'asymmetric store', NL, 'neighbors[vindex, vj] = uindex', 'neighbors[vindex, vj] = vindex', 'INSERTION')
